@@ -12,14 +12,14 @@ for f in sorted(glob.glob(os.path.join(ROOT, "seeded", "*", "meta.json"))):
             first = fl[1][:160]
             break
     needs = m["notes"].split("Needed to manifest:")[-1].split("\n")[0].strip()[:300] if "Needed to manifest" in m["notes"] else ""
-    rows.append((m["seed"], m["property"], "yes" if m.get("confirmed") else "NO", ", ".join(m.get("caught_by", [])) or "—", ran, needs, first))
+    rows.append((m["seed"], m["property"], "yes" if m.get("confirmed") else "NO", ", ".join(m.get("caught_by", [])) or "—", ran, needs, first, m.get("history", "caught at first run")))
 out = ["# Seeded changes", "",
        "Each directory holds `patch.diff` (applies to /repo HEAD), the sub-agent's `demo.py` (fails with the patch, passes "
        "without), its `notes.txt` and `meta.json` written by `tools/seed_eval.py` (confirmation in a scratch worktree: patch "
        "applies, 111 tests pass with it, demo exit codes; then the patch is applied to /repo, the quick checks listed are run, "
        "and /repo is restored).", "",
-       "| seed | property | confirmed | caught by (exit 1 + VIOLATION) | checks run | needs to manifest | first report |",
-       "|---|---|---|---|---|---|---|"]
+       "| seed | property | confirmed | caught by (exit 1 + VIOLATION) | checks run (final state) | needs to manifest | first report | history |",
+       "|---|---|---|---|---|---|---|---|"]
 for r in rows:
     out.append("| " + " | ".join(x.replace("|", "\\|").replace("\n", " ") for x in r) + " |")
 open(os.path.join(ROOT, "seeded", "README.md"), "w").write("\n".join(out) + "\n")
